@@ -654,6 +654,19 @@ func (x *Exec) initOpaque(st *State, t types.Type, addr *Term) {
 func (x *Exec) selectOp(fr *Frame, st *State, n *ssa.Select) Value {
 	var ready []*Term
 	generic := false
+	if n.Blocking {
+		// While this goroutine blocks, others run: any context may be cancelled meanwhile (cancellation is monotone, the
+		// background context is never cancelled). Without this step a blocking wait on a context nobody has cancelled yet
+		// never returns in the sequential model and the code after it is dead - whatever it does (the mutation sweep
+		// deleted the Unlock before the final select of pubsub.Wait and nothing failed).
+		old := cancelledArr(st)
+		nw := Const(freshName("cancelled|env"), ArrayS(IntS, BoolS))
+		q := Var(freshName("c"), IntS)
+		st.assume(Forall([]*Term{q}, Implies(Select(old, q), Select(nw, q))))
+		st.assume(Not(Select(nw, IntLit(0))))
+		st.setArr("G|cancelled", nw)
+		x.note("blocking select", "other goroutines may cancel any context while this one blocks (monotone havoc of the cancellation flags)")
+	}
 	for _, s := range n.States {
 		ch, ok := x.val(fr, st, s.Chan).(*Term)
 		if s.Dir != types.RecvOnly || !ok {
